@@ -13,7 +13,7 @@ import re
 from harness import core, gens, text, vers
 
 
-PLAIN = ["1", "1.0", "2.36.1", "0.9", "10", "2.36-1"]
+PLAIN = ["1", "1.0", "2.36.1", "0.9", "10", "2.36-1", "1:2.3-1"]
 
 
 def family_texts(cls, t):
@@ -108,10 +108,12 @@ def rel(a, b):
 DEN = {"EQ": {"eq"}, "NE": {"lt", "gt"}, "LT": {"lt"}, "LE": {"lt", "eq"}, "GT": {"gt"}, "GE": {"gt", "eq"}}
 
 
-def c11_known(s):
+def c11_known(s, cname=None):
+    """s falls under a listed round-trip finding of C11 (for the class cname, when given); a listed finding about
+    strings that are rejected excuses nothing here: the versions at hand were accepted"""
     for k in core.load_findings("C11"):
         rx = k.get("string_regex")
-        if k.get("kind") == "finding" and rx and re.search(rx, s):
+        if k.get("kind") == "finding" and k.get("key") == "roundtrip" and rx and re.search(rx, s) and (cname is None or k.get("class") in (None, cname)):
             return True
     return False
 
@@ -243,7 +245,7 @@ def run(ctx, pid, r, viol, classes=None, nbase=None, cap=None):
                         continue
                     s = str(rng)
                     back = vers.res_bool(lambda: vr.VersionRange.from_string(s) == rng and str(vr.VersionRange.from_string(s)) == s)
-                    if back != "OK true" and not (c11_known(lo.string) or c11_known(hi.string) or c11_known(str(lo)) or c11_known(str(hi))):
+                    if back != "OK true" and not (c11_known(lo.string, name) or c11_known(hi.string, name) or c11_known(str(lo), name) or c11_known(str(hi), name)):
                         bad(f"{name}: the range >={lo.string!r}|<{hi.string!r} prints as {s!r}, which does not read back as the same range ({back})", inputs=inp)
                 elif pid == "C17":
                     if x == "eq":
@@ -251,7 +253,7 @@ def run(ctx, pid, r, viol, classes=None, nbase=None, cap=None):
                     lo, hi = (a, b) if x == "lt" else (b, a)
                     if getattr(rcls, "scheme", None) not in vr.RANGE_CLASS_BY_SCHEMES or vr.RANGE_CLASS_BY_SCHEMES[rcls.scheme] is not rcls:
                         continue
-                    if not all(text.version_text_ok(str(v)) for v in (lo, hi)) or any(c11_known(v.string) or c11_known(str(v)) for v in (lo, hi)):
+                    if not all(text.version_text_ok(str(v)) for v in (lo, hi)) or any(c11_known(v.string, name) or c11_known(str(v), name) for v in (lo, hi)):
                         continue
                     rng = rcls(constraints=[C("GE", lo), C("LT", hi)])
                     before = [lo in rng, hi in rng]
